@@ -622,6 +622,12 @@ class Engine:
         m = re.fullmatch(r'\[u8(; \d+)?\]', ty)
         if m:
             return ('arr', [C(x) for x in b])
+        m = re.fullmatch(r'core::ops::range::RangeInclusive<(\w+)>', ty)
+        if m and m.group(1) in INT_W:
+            w = INT_W[m.group(1)] // 8
+            if len(b) >= 2 * w:
+                return ('adt', 'core::ops::range::RangeInclusive', 0, 'RangeInclusive',
+                        [C(int.from_bytes(b[:w], 'little')), C(int.from_bytes(b[w:2 * w], 'little')), C(b[2 * w] if len(b) > 2 * w else 0)])
         a = self.p.adts.get(ty)
         if a and not a['enum'] and len(a['variants'][0]['fields']) == 1:
             inner = self.decode_bytes(b, a['variants'][0]['fields'][0]['ty'])
@@ -840,6 +846,10 @@ class Engine:
         lf = self.p.fns.get(c)
         local_manual = lf is not None and not lf.get('derived') and not lf['span']['exp']
         aty = lambda i: (t.get('atys') or ['', ''])[i] if i < len(t.get('atys') or []) else ''
+        if re.search(r'core::ops::range::RangeInclusive::<\w+>::contains$|RangeInclusive::<Idx>::contains$', c) and len(args) == 2:
+            r_ = dv(0)
+            if isinstance(r_, tuple) and r_[0] == 'adt' and r_[1].endswith('RangeInclusive') and len(r_[4]) >= 2:
+                return one(('term', 'in_range', [self.purify(dv(1), s), r_[4][0], r_[4][1]]))
         if c.endswith('boxed::box_assume_init_into_vec_unsafe') or c.endswith('boxed::box_assume_init_into_vec'):
             # vec![a, b, c]: the element count is in the argument's type Box<MaybeUninit<[T; N]>>
             m = re.search(r'; (\d+)\]>+$', aty(0))
